@@ -19,6 +19,7 @@ theorem and_xor_distrib_right32 (a b c : UInt32) : (a ^^^ b) &&& c = (a &&& c) ^
 theorem xor_cancel32 (x y p : UInt32) : x ^^^ p ^^^ (y ^^^ p) = x ^^^ y := by
   rw [UInt32.xor_assoc, UInt32.xor_comm y p, ← UInt32.xor_assoc p, UInt32.xor_self, UInt32.zero_xor]
 
+/-- The LFSR step is linear over xor. -/
 theorem crcBit_xor (a b : UInt32) : crcBit (a ^^^ b) = crcBit a ^^^ crcBit b := by
   unfold crcBit
   rw [and_xor_distrib_right32, UInt32.shiftRight_xor]
@@ -70,5 +71,86 @@ theorem crcBits8_high (c : UInt32) (h : c.toNat % 256 = 0) : (crcBits8 c).toNat 
   have n8 := toNat_shiftRight_one (c >>> 1 >>> 1 >>> 1 >>> 1 >>> 1 >>> 1 >>> 1)
   rw [e8]
   omega
+
+theorem split_low_byte (d : Nat) : (d >>> 8 <<< 8) ^^^ (d &&& 255) = d := by
+  apply Nat.eq_of_testBit_eq; intro i
+  have h255 : (255 : Nat) = 2 ^ 8 - 1 := by decide
+  rw [h255]
+  simp only [Nat.testBit_xor, Nat.testBit_shiftLeft, Nat.testBit_shiftRight, Nat.testBit_and,
+    Nat.testBit_two_pow_sub_one]
+  by_cases h : i < 8
+  · have h' : ¬ 8 ≤ i := by omega
+    simp [h, h']
+  · have : 8 ≤ i := by omega
+    simp [h, this]
+
+theorem split_low_byte32 (d : UInt32) : ((d >>> 8) <<< 8) ^^^ (d &&& 255) = d := by
+  apply UInt32.toNat_inj.mp
+  simp only [UInt32.toNat_xor, UInt32.toNat_and, UInt32.toNat_shiftLeft, UInt32.toNat_shiftRight]
+  have h8 : (8 : UInt32).toNat % 32 = 8 := by decide
+  have h255 : (255 : UInt32).toNat = 255 := by decide
+  rw [h8, h255]
+  have hlt : d.toNat >>> 8 <<< 8 < 2 ^ 32 := by
+    have := d.toNat_lt
+    rw [Nat.shiftRight_eq_div_pow, Nat.shiftLeft_eq]
+    omega
+  rw [Nat.mod_eq_of_lt hlt]
+  exact split_low_byte d.toNat
+
+/-- The heart of the table method: eight bit-serial steps on `d` are eight steps on its low byte,
+xor the rest shifted down. -/
+theorem crcBits8_split (d : UInt32) : crcBits8 d = crcBits8 (d &&& 255) ^^^ (d >>> 8) := by
+  conv => lhs; rw [← split_low_byte32 d]
+  rw [crcBits8_xor, UInt32.xor_comm]
+  congr 1
+  apply UInt32.toNat_inj.mp
+  have h8 : (8 : UInt32).toNat % 32 = 8 := by decide
+  have hs : ((d >>> 8) <<< 8).toNat = d.toNat / 256 * 256 := by
+    simp only [UInt32.toNat_shiftLeft, UInt32.toNat_shiftRight, h8]
+    have := d.toNat_lt
+    rw [Nat.shiftRight_eq_div_pow, Nat.shiftLeft_eq]
+    omega
+  rw [crcBits8_high _ (by omega), hs]
+  simp only [UInt32.toNat_shiftRight, h8, Nat.shiftRight_eq_div_pow]
+  omega
+
+theorem crcTableSpec_getD (i : Nat) (h : i < 256) :
+    crcTableSpec.getD i 0 = crcBits8 (UInt32.ofNat i) := by
+  unfold crcTableSpec
+  simp [Array.getD, h]
+
+/-- `crc_bytewise_eq_spec`: with the table computed from the definition, the table-driven step of
+`crc32IEEE` is the bit-serial byte step, for every register value and byte. -/
+theorem crcTableStep_spec (h : UInt32) (v : UInt8) :
+    crcTableStep crcTableSpec h v = crcByteSpec h v := by
+  unfold crcTableStep crcByteSpec
+  have hv := v.toNat_lt
+  have hh := h.toNat_lt
+  have hidx : (h.toUInt8 ^^^ v).toNat < 256 := (h.toUInt8 ^^^ v).toNat_lt
+  rw [crcTableSpec_getD _ hidx, crcBits8_split (h ^^^ v.toUInt32)]
+  have h8 : (8 : UInt32).toNat % 32 = 8 := by decide
+  have h255 : (255 : UInt32).toNat = 255 := by decide
+  have e1 : UInt32.ofNat (h.toUInt8 ^^^ v).toNat = (h ^^^ v.toUInt32) &&& 255 := by
+    apply UInt32.toNat_inj.mp
+    simp only [UInt32.toNat_ofNat', UInt8.toNat_xor, UInt32.toNat_toUInt8, UInt32.toNat_and,
+      UInt32.toNat_xor, UInt8.toNat_toUInt32, h255]
+    have e255 : (255 : Nat) = 2 ^ 8 - 1 := by decide
+    have ev : v.toNat % 2 ^ 8 = v.toNat := Nat.mod_eq_of_lt hv
+    have hx : (h.toNat % 2 ^ 8 ^^^ v.toNat % 2 ^ 8) < 2 ^ 8 :=
+      Nat.xor_lt_two_pow (Nat.mod_lt _ (by decide)) (Nat.mod_lt _ (by decide))
+    have rhs : (h.toNat ^^^ v.toNat) &&& 255 = h.toNat % 2 ^ 8 ^^^ v.toNat := by
+      rw [e255, Nat.and_two_pow_sub_one_eq_mod, Nat.xor_mod_two_pow, ev]
+    rw [rhs]
+    rw [ev] at hx
+    exact Nat.mod_eq_of_lt (by omega)
+  have e2 : (h ^^^ v.toUInt32) >>> 8 = h >>> 8 := by
+    rw [UInt32.shiftRight_xor]
+    have : v.toUInt32 >>> 8 = 0 := by
+      apply UInt32.toNat_inj.mp
+      simp only [UInt32.toNat_shiftRight, UInt8.toNat_toUInt32, h8, Nat.shiftRight_eq_div_pow]
+      show v.toNat / 256 = 0
+      omega
+    rw [this, UInt32.xor_zero]
+  rw [e1, e2]
 
 end WuffsVerif.Hash
